@@ -605,7 +605,7 @@ def steps_suite(ctx):
         triples.append((tf, 0.0, dt, round(tf / dt)))
     # many steps, integer-typed arguments, a final time before the start
     for tf, t0, dt, k in [(1.0, 0.0, 0.001, 1000), (10.0, 0.0, 0.01, 1000), (4.096, 0.0, 0.002, 2048), (3, 0, 1, 3), (7, 2, 1, 5),
-                          (0.0, 0.5, 0.1, 0), (0.2, 0.5, 0.1, 0)]:
+                          (0.0, 0.5, 0.1, None), (0.2, 0.5, 0.1, None)]:
         triples.append((tf, t0, dt, k))
     # non-multiples and the two sides of the 1e-9 window
     for _ in range(60 if ctx.thorough else 30):
